@@ -225,6 +225,7 @@ def capture_factory(start_server_kwargs: dict, config):
         captured["host"] = host
         captured["port"] = port
         captured["ssl"] = kw.get("ssl")
+        captured["kwargs"] = dict(kw)
         raise _Stop()
 
     loop.create_server = fake_create_server  # type: ignore[method-assign]
